@@ -521,7 +521,21 @@ pub fn c08_gen(rng: &mut Rng, n: usize) -> Vec<Case> {
     let mut tries = 0;
     while out.len() < n && tries < n * 20 {
         tries += 1;
-        let p = gen_program(rng, &opts);
+        let mut p = gen_program(rng, &opts);
+        if rng.chance(30) {
+            // a comprehension whose ELEMENT (not its source list) reads a scoped variable defined by another stanza
+            let definer = *rng.pick(&["(module (_) @s) {\n  let @s.zd = (start-row @s)\n}\n", "(expression_statement) @s {\n  let @s.zd = (node-type @s)\n}\n(module (_) @s) {\n  print @s\n}\n",
+                                      "(module (_)* @stmts) @m {\n  for s in @stmts {\n    node s.zd\n    attr (s.zd) text = (source-text s)\n  }\n  print @m\n}\n",
+                                      "(module (_)* @stmts) @m {\n  for s in @stmts {\n    let s.zd = (start-row s)\n  }\n  print @m\n}\n"]);
+            let reader = *rng.pick(&["(module (_)* @stmts) @m {\n  node n\n  attr (n) ds = [ (is-null s) for s in @stmts ], m = @m\n}\n",
+                                     "(module (_)* @stmts) @m {\n  node n\n  attr (n) ds = [ s.zd for s in @stmts ], m = @m\n}\n",
+                                     "(module (_)* @stmts) @m {\n  node n\n  attr (n) ds = { s.zd for s in @stmts }, m = @m\n}\n"]);
+            let (a, b) = (rng.below(p.stanzas.len() + 1), 0);
+            p.stanzas.insert(a, definer.to_string());
+            let b2 = rng.below(p.stanzas.len() + 1 + b);
+            p.stanzas.insert(b2, reader.to_string());
+            if p.stanzas.len() > 5 { p.stanzas.truncate(5); }
+        }
         if p.stanzas.len() < 2 { continue; }
         let src = if rng.chance(50) { CORPUS[rng.below(CORPUS.len())].to_string() } else { gen_source(rng) };
         let perms = permutations(p.stanzas.len(), rng, 24);
@@ -601,6 +615,22 @@ fn c03_direct(file: &File, tree: &Tree, info: &TreeInfo) -> (u32, String) {
         let mut b: Vec<Vec<(String, Vec<usize>)>> = merged.iter().filter(|(p, _)| *p == si).map(|(_, c)| by_name(fq, c)).collect();
         a.sort(); b.sort();
         if a != b { return (90, format!("A3: merged-query matches of pattern {} are not a permutation of the stanza query's matches", si)); }
+    }
+    // the checker's resolution of every capture expression against tree-sitter's own tables
+    for (si, st) in file.stanzas.iter().enumerate() {
+        let mut caps: Vec<(String, tree_sitter::CaptureQuantifier, usize, usize)> = Vec::new();
+        collect_captures_stmts(&st.statements, &mut caps);
+        for (name, q, fidx, sidx) in caps {
+            let want_s = st.query.capture_index_for_name(&name).map(|i| i as usize);
+            let want_f = fq.capture_index_for_name(&name).map(|i| i as usize);
+            if want_s != Some(sidx) || want_f != Some(fidx) { return (94, format!("capture @{} of stanza {} resolved to indices ({}, {}) instead of ({:?}, {:?})", name, si, fidx, sidx, want_f, want_s)); }
+            let want_q = st.query.capture_quantifiers(0)[sidx];
+            if q != want_q { return (94, format!("capture @{} of stanza {} resolved to quantifier {:?} instead of {:?}", name, si, q, want_q)); }
+        }
+        if fq.capture_index_for_name("__tsg__full_match").map(|i| i as usize) != Some(st.full_match_file_capture_index)
+            || st.query.capture_index_for_name("__tsg__full_match").map(|i| i as usize) != Some(st.full_match_stanza_capture_index) {
+            return (94, format!("full-match capture indices of stanza {} are wrong", si));
+        }
     }
     // the public visitor, both modes: multiset of (stanza location, full node, named captures)
     let visit = |lazy: bool| -> Vec<String> {
@@ -736,3 +766,161 @@ pub fn c04_gen(rng: &mut Rng, n: usize) -> Vec<Case> {
     out
 }
 pub fn c04_replay(j: &serde_json::Value) -> Case { quiet_panics(); c04_case(&input_from_json(j)).expect("replay loads") }
+
+// ---------------------------------------------------------------- C05 (execution part): no panic, no hang
+use std::sync::mpsc;
+use std::time::Duration;
+
+/// classes of inputs whose misbehaviour is a listed known finding (generators stay outside them)
+pub fn known_class(dsl: &str) -> Option<&'static str> {
+    // K1: a capture inside a shorthand body; K2: a shorthand that (transitively) names itself;
+    // K3: a stanza whose root pattern is quantified or carries more than two user captures
+    for line in dsl.lines() {
+        let l = line.trim_start();
+        if l.starts_with("attribute ") {
+            if let Some(body) = l.split("=>").nth(1) {
+                if body.contains('@') { return Some("K1"); }
+                let name = l["attribute ".len()..].split('=').next().unwrap_or("").trim();
+                if body.split(|c: char| !(c.is_alphanumeric() || c == '_' || c == '-')).any(|w| w == name) && body.contains(&format!("{} =", name)) { return Some("K2"); }
+            }
+        }
+    }
+    None
+}
+
+fn run_with_watchdog<F: FnOnce() -> Obs + Send + 'static>(f: F, secs: u64) -> Option<Obs> {
+    let (tx, rx) = mpsc::channel();
+    std::thread::Builder::new().stack_size(64 << 20).spawn(move || { let r = std::panic::catch_unwind(std::panic::AssertUnwindSafe(f)); let _ = tx.send(r.unwrap_or(Obs::Panic)); }).ok()?;
+    rx.recv_timeout(Duration::from_secs(secs)).ok()
+}
+
+pub fn c05x_case(inp: &ExecInput, lazy: bool) -> Option<Case> {
+    let file = load(&inp.dsl).ok()?;
+    let tree = parse_python(&inp.src);
+    let info = TreeInfo::new(&tree, &inp.src);
+    // the run under a watchdog (own thread, 64 MiB stack): a hang is reported, not waited for
+    let (dsl2, src2, sup2) = (inp.dsl.clone(), inp.src.clone(), inp.supplied.clone());
+    let watched = run_with_watchdog(move || {
+        let file = match load(&dsl2) { Ok(f) => f, Err(_) => return Obs::Panic };
+        let tree = parse_python(&src2);
+        let info = TreeInfo::new(&tree, &src2);
+        execute_fresh(&file, &tree, &info, &sup2, lazy, false)
+    }, 10);
+    let obs = match &watched { Some(o) => o.clone(), None => Obs::Panic };
+    // rendering of the error, plain and pretty, must not panic either
+    let mut render_ok = true;
+    if let Obs::Err(_, _) = &obs {
+        let r = std::panic::catch_unwind(std::panic::AssertUnwindSafe(|| {
+            let mut g = Graph::new();
+            let globals = make_globals(&inp.supplied, &mut g, &info);
+            let functions = tree_sitter_graph::functions::Functions::stdlib();
+            let config = tree_sitter_graph::ExecutionConfig::new(&functions, &globals).lazy(lazy);
+            if let Err(e) = file.execute_into(&mut g, &tree, info.src, &config, &NoCancellation) {
+                let a = format!("{}", e);
+                let b = format!("{}", e.display_pretty(std::path::Path::new("s.py"), info.src, std::path::Path::new("r.tsg"), &inp.dsl));
+                a.len() + b.len()
+            } else { 0 }
+        }));
+        render_ok = r.is_ok();
+    }
+    let r = run_in_term(&file, &inp.dsl, &tree, &info, &inp.supplied, lazy)?;
+    let model = format!("c15_verdict0 ({}) ({}) {}", tree_term(&info), r, obs.coq());
+    let verdict = if watched.is_none() { "61".to_string() }            // hang
+        else if matches!(obs, Obs::Panic) { "62".to_string() }          // panic (generators stay outside the known classes)
+        else if !render_ok { "63".to_string() }                         // rendering the error panicked
+        else { model };
+    let mut replay = input_json(inp);
+    replay["lazy"] = json!(lazy);
+    replay["impl"] = json!({"outcome": obs.class(), "hang": watched.is_none(), "render_ok": render_ok});
+    let tags = vec![format!("mode:{}", if lazy { "lazy" } else { "strict" }), format!("outcome:{}", obs.class()),
+                    format!("error_nodes:{}", tree.root_node().has_error()), format!("non_ascii:{}", !inp.src.is_ascii())];
+    Some(Case { verdict, detail: format!("c15_detail0 ({}) ({})", tree_term(&info), r), key: fnv(&format!("{}|{}|{}", inp.dsl, inp.src, lazy)),
+        nontrivial: matches!(obs, Obs::Err(_, _)) || tree.root_node().has_error(), tags, replay })
+}
+pub fn c05x_gen(rng: &mut Rng, n: usize) -> Vec<Case> {
+    quiet_panics();
+    let mut out = Vec::new();
+    let mut tries = 0;
+    while out.len() < n && tries < n * 30 {
+        tries += 1;
+        let mut opts = GenOpts::full();
+        opts.render_nodes = true;
+        let mut p = gen_program(rng, &opts);
+        // ill-typed programs: one or two runtime faults
+        if rng.chance(60) { let _ = inject_runtime_fault(rng, &mut p); }
+        if rng.chance(20) { let _ = inject_runtime_fault(rng, &mut p); }
+        let base = gen_source(rng);
+        let k = rng.below(4);
+        let src = if rng.chance(50) { inject_faults(rng, &base, k) } else { base };
+        let inp = ExecInput { dsl: p.text(), src, supplied: p.supplied.clone() };
+        if known_class(&inp.dsl).is_some() { continue; }
+        if let Some(c) = c05x_case(&inp, rng.chance(50)) { out.push(c); }
+    }
+    out
+}
+pub fn c05x_replay(j: &serde_json::Value) -> Case { quiet_panics(); c05x_case(&input_from_json(j), j["lazy"].as_bool().unwrap_or(false)).expect("replay loads") }
+
+/// Reproduce a listed known finding in THIS process (the driver runs it as a child process so that
+/// aborts — stack overflow — are contained). Prints one line: REPRODUCED <what> | NOT-REPRODUCED.
+pub fn known_main(id: &str) {
+    quiet_panics();
+    let src = "def f(x):\n    pass\n";
+    let run = |dsl: &str, lazy: bool| -> String {
+        let file = match load(dsl) { Ok(f) => f, Err(e) => return format!("load-error {}", &e[..e.len().min(60)]) };
+        let tree = parse_python(src);
+        let info = TreeInfo::new(&tree, src);
+        match execute_fresh(&file, &tree, &info, &[], lazy, false) { Obs::Ok(_) => "ok".into(), Obs::Err(c, _) => format!("err {}", c), Obs::Panic => "panic".into() }
+    };
+    let line = match id {
+        "K1" => { let r = run("attribute sh = x => a = @_m\n(module) @_m { node n\n attr (n) sh = 1 }\n", false); if r == "panic" { "REPRODUCED panic (unreachable!) for a capture inside a shorthand body".to_string() } else { format!("NOT-REPRODUCED ({})", r) } }
+        "K2" => { let r = run("attribute a = x => a = x\n(module) { node n\n attr (n) a = 1 }\n", false); format!("NOT-REPRODUCED ({})", r) }  // reaching this line means no abort
+        "K3" => {
+            let rs: Vec<String> = ["(module) @a @b @c { print @a, @b, @c }\n", "(pass_statement)? @a { print @a }\n"].iter().map(|d| run(d, false)).collect();
+            if rs.iter().any(|r| r == "panic") { format!("REPRODUCED panic (missing full capture): {:?}", rs) } else { format!("NOT-REPRODUCED ({:?})", rs) }
+        }
+        "K4a" => { let r = load("attribute sh = x => a = undefined_variable_zz\n(module) { node n\n attr (n) b = 1 }\n"); if r.is_ok() { "REPRODUCED a shorthand body using an undefined variable is accepted by the loader".to_string() } else { "NOT-REPRODUCED (rejected)".into() } }
+        "K4b" => {
+            let a = "attribute sh = x => cnt = [ y for y in x.vals ]\n(module) @m { node n\n attr (n) sh = @m }\n(module) @m { let @m.vals = [1] }\n";
+            let b = "attribute sh = x => cnt = [ y for y in x.vals ]\n(module) @m { let @m.vals = [1] }\n(module) @m { node n\n attr (n) sh = @m }\n";
+            let (ra, rb) = (run(a, true), run(b, true));
+            if (ra == "ok") != (rb == "ok") { format!("REPRODUCED lazy result depends on stanza order when a shorthand body iterates a scoped variable ({} vs {})", ra, rb) } else { format!("NOT-REPRODUCED ({} vs {})", ra, rb) }
+        }
+        _ => "UNKNOWN".into(),
+    };
+    println!("{}", line);
+}
+
+use tree_sitter_graph::ast;
+type CapInfo = (String, tree_sitter::CaptureQuantifier, usize, usize);
+pub fn collect_captures_expr(e: &ast::Expression, out: &mut Vec<CapInfo>) {
+    use ast::Expression as E;
+    match e {
+        E::Capture(c) => out.push((c.name.as_str().to_string(), c.quantifier, c.file_capture_index, c.stanza_capture_index)),
+        E::ListLiteral(l) => l.elements.iter().for_each(|x| collect_captures_expr(x, out)),
+        E::SetLiteral(l) => l.elements.iter().for_each(|x| collect_captures_expr(x, out)),
+        E::ListComprehension(c) => { collect_captures_expr(&c.element, out); collect_captures_expr(&c.value, out); }
+        E::SetComprehension(c) => { collect_captures_expr(&c.element, out); collect_captures_expr(&c.value, out); }
+        E::Variable(ast::Variable::Scoped(v)) => collect_captures_expr(&v.scope, out),
+        E::Call(c) => c.parameters.iter().for_each(|x| collect_captures_expr(x, out)),
+        _ => {}
+    }
+}
+fn collect_captures_var(v: &ast::Variable, out: &mut Vec<CapInfo>) { if let ast::Variable::Scoped(s) = v { collect_captures_expr(&s.scope, out); } }
+pub fn collect_captures_stmts(stmts: &[ast::Statement], out: &mut Vec<CapInfo>) {
+    use ast::Statement as S;
+    for s in stmts {
+        match s {
+            S::DeclareImmutable(d) => { collect_captures_var(&d.variable, out); collect_captures_expr(&d.value, out); }
+            S::DeclareMutable(d) => { collect_captures_var(&d.variable, out); collect_captures_expr(&d.value, out); }
+            S::Assign(d) => { collect_captures_var(&d.variable, out); collect_captures_expr(&d.value, out); }
+            S::CreateGraphNode(d) => collect_captures_var(&d.node, out),
+            S::AddGraphNodeAttribute(d) => { collect_captures_expr(&d.node, out); d.attributes.iter().for_each(|a| collect_captures_expr(&a.value, out)); }
+            S::CreateEdge(d) => { collect_captures_expr(&d.source, out); collect_captures_expr(&d.sink, out); }
+            S::AddEdgeAttribute(d) => { collect_captures_expr(&d.source, out); collect_captures_expr(&d.sink, out); d.attributes.iter().for_each(|a| collect_captures_expr(&a.value, out)); }
+            S::Scan(d) => { collect_captures_expr(&d.value, out); d.arms.iter().for_each(|a| collect_captures_stmts(&a.statements, out)); }
+            S::Print(d) => d.values.iter().for_each(|x| collect_captures_expr(x, out)),
+            S::If(d) => d.arms.iter().for_each(|a| { a.conditions.iter().for_each(|c| match c { ast::Condition::Some { value, .. } | ast::Condition::None { value, .. } | ast::Condition::Bool { value, .. } => collect_captures_expr(value, out) }); collect_captures_stmts(&a.statements, out); }),
+            S::ForIn(d) => { collect_captures_expr(&d.value, out); collect_captures_stmts(&d.statements, out); }
+        }
+    }
+}
